@@ -2,6 +2,7 @@ import Props.C06Key
 import Props.SchedTie
 import TaskModel.Sched.MonC06
 import Props.C01
+import TaskModel.Sched.MonVal
 /-!
 # C06 — run: once / when_changed / always execute the right number of times
 
@@ -19,6 +20,12 @@ compiled task two references share a key exactly when they are called with the s
 variable values (including values that only reach `env:` or a sub-call's `vars:`), and
 `C06Key.hash_reaches_all` ties that hypothesis to `hash.go` / `internal/hash` /
 `taskfile/ast` through the regenerated `Gen.HashFields`.
+
+Which statements say what (audit, session 3).  `C06_exec_only_by_register` restates the guards of `register` /
+`waiter`.  Trace-level: `C06_once_key(_trace)`, `C06_one_body_per_key`, `C06_at_most_one_body`, `C06_always`,
+`C06_waiters_observe_outcome`.  WHICH key a reference gets is not constrained by the acceptor at all:
+`C06_key_discipline` / `C06_key_owner` give the meaning of the monitor `keyMon` (verdict `C06k`) evaluated on every
+log, and `Props.C06Key` proves the shape of the key function.
 -/
 namespace Props.C06
 open TaskModel.Sched
@@ -195,5 +202,67 @@ example : (replay prog {} (init 1) (run1.take 35 ++ [⟨4, .register 6⟩])).isN
 example : (replay prog {} (init 1) (run1.take 35 ++ [⟨4, .depsRelease⟩])).isSome = true := by decide
 -- the monitor flags a second registration
 example : regOnce (run1.take 24 ++ [⟨3, .register 5⟩]) [] = false := by decide
+
+/-! ## which key a reference gets (executor side)
+
+The acceptor treats keys as opaque: `register k` needs `k` fresh, `waiter k` needs it registered — an
+executor that handed every reference a FRESH key (every reference executes) or that gave two different
+tasks ONE key (one of them never executes) would still be accepted by it.  What C06 says about the keys
+is the monitor `keyMon` (`Sched.MonVal`, driver verdict `C06k`), evaluated on every log: the owner of a
+key is the task (`run: once`) or the task and the value it is called with (`run: when_changed`;
+`valsOf`), and keys and owners correspond one to one.  (`Props.C06Key` proves that the key FUNCTION of
+the code has this shape; `keyMon` checks that the executor uses it that way.) -/
+
+/-- **C06 (key discipline, what `C06k = 1` means).** Every activation that registered, waited for or was
+refused a key belongs to a deduplicated task, and two such events name the same key EXACTLY when they are
+by the same `run: once` task, or by the same `run: when_changed` task called with the same value. -/
+theorem C06_key_discipline (Ps : Passes) (P : Program) (F : Flags) (n : Nat) (tr : List Label)
+    (h : keyMon Ps P F n tr = true) :
+    ∀ x ∈ keyEvents P (taskTable tr) (valsOf Ps P F (init n) tr []) tr,
+      x.2.isSome = true ∧
+      ∀ y ∈ keyEvents P (taskTable tr) (valsOf Ps P F (init n) tr []) tr, (x.1 = y.1 ↔ x.2 = y.2) :=
+  (keysConsistent_iff _).mp h
+
+/-- the owner of a key: one per `run: once` task whatever it is called with, one per value for
+`run: when_changed`, none for `run: always` -/
+theorem C06_key_owner (P : Program) (t : Nat) (d : TaskDef) (hd : P[t]? = some d) (v w : Nat) :
+    (d.run = .once → keyOwner P t v = keyOwner P t w ∧ (keyOwner P t v).isSome = true) ∧
+    (d.run = .whenChanged → (keyOwner P t v = keyOwner P t w ↔ v = w) ∧ (keyOwner P t v).isSome = true) ∧
+    (d.run = .always → keyOwner P t v = none) := by
+  refine ⟨?_, ?_, ?_⟩ <;> intro hr <;> simp [keyOwner, hd, hr]
+
+/-- two different tasks never own the same key -/
+theorem C06_key_owner_task (P : Program) (t t' v v' : Nat) (o : Nat × Nat)
+    (h : keyOwner P t v = some o) (h' : keyOwner P t' v' = some o) : t = t' := by
+  have key : ∀ (t v : Nat) (o : Nat × Nat), keyOwner P t v = some o → o.1 = t := by
+    intro t v o h
+    unfold keyOwner at h
+    cases hd : P[t]? with
+    | none => rw [hd] at h; cases h
+    | some d =>
+      rw [hd] at h
+      simp only at h
+      cases hr : d.run <;> rw [hr] at h <;> simp at h <;> (rw [← h])
+  rw [← key t v o h, ← key t' v' o h']
+
+/-- non-vacuity, and why the monitor is needed: task 1 (`run: once`) is referenced twice by task 0.  The log in
+which the second reference waits on the first one's key passes; a log in which the second reference is handed
+a fresh key and executes again is ACCEPTED by the acceptor — and fails `keyMon`. -/
+private def progK : Program :=
+  [{ cmds := [.call 1 false, .call 1 false] }, { run := .once, cmds := [.shell 0 false false] }]
+private def passK : Passes := [{ cmds := [.none, .none] }, { cmds := [.none] }]
+private def body (a k : Nat) : List Label :=
+  [⟨a, .acquire⟩, ⟨a, .register k⟩, ⟨a, .depsRelease⟩, ⟨a, .depsReacq⟩, ⟨a, .depsDone .ok⟩, ⟨a, .guardsPassed⟩,
+   ⟨a, .cmdStart 0 none false⟩, ⟨a, .cmdEnd 0 .ok⟩, ⟨a, .execDone⟩, ⟨a, .release⟩, ⟨a, .exit⟩]
+private def headK : List Label :=
+  [⟨1, .enter (.top 0) 0⟩, ⟨1, .acquire⟩, ⟨1, .depsRelease⟩, ⟨1, .depsReacq⟩, ⟨1, .depsDone .ok⟩, ⟨1, .guardsPassed⟩,
+   ⟨1, .callRelease 0 false⟩, ⟨2, .enter (.call 1 0 false) 1⟩] ++ body 2 7 ++
+  [⟨1, .callRet 0⟩, ⟨1, .callReacq 0⟩, ⟨1, .callRelease 1 false⟩, ⟨3, .enter (.call 1 1 false) 1⟩]
+private def tailK : List Label := [⟨1, .callRet 1⟩, ⟨1, .callReacq 1⟩, ⟨1, .release⟩, ⟨1, .exit⟩]
+private def runShared : List Label :=
+  headK ++ [⟨3, .acquire⟩, ⟨3, .waiter 7⟩, ⟨3, .wRelease⟩, ⟨3, .wWake⟩, ⟨3, .wReacq⟩, ⟨3, .release⟩, ⟨3, .exit⟩] ++ tailK
+private def runFresh : List Label := headK ++ body 3 8 ++ tailK
+example : (replay progK {} (init 1) runShared).isSome = true ∧ keyMon passK progK {} 1 runShared = true := by decide
+example : (replay progK {} (init 1) runFresh).isSome = true ∧ keyMon passK progK {} 1 runFresh = false := by decide
 
 end Props.C06
